@@ -42,6 +42,14 @@ fn all_trees<T: Tree>(leaves: &[T], d: usize) -> Vec<T> {
 }
 
 /// With `share`: `None` unless sharing really changes the program (some op node re-used).
+///
+/// Soundness of this de-duplication: when hash-consing finds no repeated NON-LEAF sub-tree
+/// (`reuses == 0`), the lowered program has exactly the op nodes of the `fresh` lowering, in
+/// the same order; the only difference is that a repeated leaf is `.clone()`d instead of
+/// rebuilt. A leaf expression holds no `Arc` (p3's `SymbolicExpr::Leaf` is a plain value that
+/// is moved into a new `Arc` by the operator that consumes it), so both lowerings hand the
+/// repo's compiler symbolic DAGs with the identical node/pointer-sharing structure, and the
+/// native folders only see values. The `fresh` twin (index - count/2) covers it.
 fn finish_spec(s: Spec) -> Option<Spec> {
     if s.share && lower(&s).reuses == 0 {
         return None;
@@ -410,6 +418,7 @@ fn quick_list() -> Vec<Family> {
         shared_contexts("shared_object_contexts_three", leaves_three(), 1, 2),
         shared_contexts("shared_d2_object_twice", leaves_three(), 2, 1),
         shared_contexts("shared_object_contexts_six", leaves_six(), 1, 2),
+        shared_contexts("shared_d2_object_contexts", leaves_two(), 2, 2),
         chains("deep_chains", &chain_lens, 10),
         // --- several constraints: alpha fold order, cross-constraint cache
         multi("two_constraints_six", all_trees(&leaves_six(), 1), 2, false),
@@ -417,6 +426,7 @@ fn quick_list() -> Vec<Family> {
         multi("two_constraints_filters", bpool2(), 2, true),
         multi("three_constraints", bpool2(), 3, false),
         multi("three_constraints_filters_one_leaf", all_trees(&[ML(0)], 1), 3, true),
+        multi("three_constraints_filters_two_leaves", bpool2(), 3, true),
         // --- extension expressions / constraints
         single_ext("ext_d1_noperm_filters", eleaves_noperm(), 1, true, vec![]),
         single_ext(
@@ -448,9 +458,7 @@ fn thorough_extra() -> Vec<Family> {
     let long: Vec<usize> = vec![384, 512, 1024, 2048];
     vec![
         chains("deep_chains_long", &long, 14),
-        multi("three_constraints_filters_two_leaves", bpool2(), 3, true),
         single("base_d3_two_leaves", leaves_two(), 3, false, true),
-        shared_contexts("shared_d2_object_contexts", leaves_two(), 2, 2),
         single("base_d2_all_leaves", leaves_full(), 2, false, true),
         multi("two_constraints_all_leaves", all_trees(&leaves_full(), 1), 2, false),
         single_ext("ext_d2_noperm_all", eleaves_noperm(), 2, false, vec![]),
